@@ -1642,3 +1642,21 @@ def m_time_add(ex, c, a, m):
     if c.startswith('Duration'):
         return Adt('Duration', None, [a[0]])
     return Adt('SystemTime', None, [d(a[1]).fields[0]])
+
+
+# ------------------------------------------------------------------------------------------ Pin / task (async kernels)
+
+@model(r"Pin::<&mut .+>::(get_mut|into_inner|get_unchecked_mut|into_ref|get_ref)|Pin::<.+>::(as_mut|as_ref)|<Pin<.+> as Deref(Mut)?>::deref(_mut)?")
+def m_pin_get(ex, c, a, m):
+    p = d(a[0]) if isinstance(a[0], Ref) and type(d(a[0])) is Adt and d(a[0]).name == 'Pin' else a[0]
+    if type(p) is Adt and p.name == 'Pin':
+        inner = p.fields[0]
+        if c.startswith('Pin::<') and (m.group(2) in ('as_mut', 'as_ref')):
+            return Adt('Pin', None, [inner if isinstance(inner, Ref) else Ref(p.fields, 0)])
+        return inner
+    return a[0]
+
+
+@model(r"Pin::<.+>::(new|new_unchecked)")
+def m_pin_new(ex, c, a, m):
+    return Adt('Pin', None, [a[0]])
